@@ -29,11 +29,39 @@ def chain_filters(chain, lzopt):
         specs.append((lz.FILTER_DELTA, d))
     elif chain["pre"] == "x86":
         specs.append((lz.FILTER_X86, None))
+    elif chain["pre"] == "armbad":
+        # passes lzma_raw_encoder_memusage() and lzma_block_header_size(); refused by lzma_simple_coder_init()
+        b = lz.OptBcj(); b.start_offset = 2
+        specs.append((lz.FILTER_ARM, b))
     specs.append((lz.FILTER_LZMA2 if chain["lz"] == "lzma2" else lz.FILTER_LZMA1, o))
     return lz.make_filters(specs)
 
-def gen_data(rng, n):
-    """Mixed compressibility; some x86 call opcodes."""
+def gen_repetitive(rng, n):
+    """Low entropy: a tiny alphabet, most bytes copied from a short distance back (long, overlapping matches that
+    reach back across every point of the input), or a pure period-p sequence with rare mutations."""
+    out = bytearray()
+    if rng.random() < 0.5:
+        back = rng.choice([3, 50, 50, 400])
+        alpha = rng.choice([2, 2, 3, 16])
+        while len(out) < n:
+            i = len(out)
+            if i > back and rng.random() < 0.875:
+                out.append(out[i - 1 - rng.randrange(back)])
+            else:
+                out.append(97 + rng.randrange(alpha))
+    else:
+        p = rng.choice([1, 2, 3, 7, 31, 200])
+        unit = bytes(rng.getrandbits(8) for _ in range(p))
+        while len(out) < n:
+            out += unit
+            if rng.random() < 0.05:
+                out[-1] ^= 1 << rng.randrange(8)
+    return bytes(out[:n])
+
+def gen_data(rng, n, family="mixed"):
+    """family 'mixed': segments of random bytes / words (some x86 call opcodes) / runs; 'repetitive': see above."""
+    if family == "repetitive":
+        return gen_repetitive(rng, n)
     out = bytearray()
     words = [b"alpha ", b"beta ", b"gamma\n", b"\xe8\x10\x00\x00\x00", b"\xe9\xf0\xff\xff\xff", b"0123456789", b"\x00\x00\x00\x00"]
     while len(out) < n:
@@ -209,11 +237,11 @@ def tokens_from_xz(r, enc):
 
 # ------------------------------------------------------------------------------------------------ the run
 def default_lzopt(rng):
-    mf = rng.choice([lz.MF_HC3, lz.MF_HC4, lz.MF_BT2, lz.MF_BT3, lz.MF_BT4])
+    mf = rng.choice([lz.MF_HC3, lz.MF_HC4, lz.MF_BT2, lz.MF_BT3, lz.MF_BT4, lz.MF_BT4])
     return dict(dict_size=rng.choice([1 << 16, 1 << 20]), mf=mf, mode=rng.choice([lz.MODE_FAST, lz.MODE_NORMAL]),
                 nice_len=rng.choice([8, 32, 64, 273]), depth=rng.choice([0, 4]))
 
-def run_history(hist, rng, max_calls=400000, probe=True):
+def run_history(hist, rng, max_calls=400000):
     """Execute `hist` on a real encoder.
     -> dict(events=[...], ops=[observed per op], problems=[(key, detail)], out=bytes, data=bytes)."""
     L = lz.L()
@@ -221,7 +249,9 @@ def run_history(hist, rng, max_calls=400000, probe=True):
     lzopt = hist.get("lzopt") or default_lzopt(rng)
     hist["lzopt"] = lzopt
     total = sum(o["n"] for o in hist["ops"] if o["k"] == "op") * unit
-    data = gen_data(rng, total)
+    probe = hist.get("probe", True)
+    hist.setdefault("data", rng.choice(["mixed", "mixed", "repetitive"]))
+    data = gen_data(rng, total, hist["data"])
     filters0 = chain_filters(chain0, lzopt)
     check = lz.CHECK_CRC32 if hist["check"] == "crc" else lz.CHECK_NONE
     c = lz.Coder()
@@ -344,7 +374,6 @@ def worker_main():
     for line in sys.stdin:
         req = json.loads(line)
         # tell the parent what is being executed, in case the process dies
-        sys.stderr.write("C12-RUNNING %s\n" % json.dumps(req["hist"])[:300]); sys.stderr.flush()
         try:
             res = run_history(req["hist"], random.Random(req["seed"]))
             ans = dict(ok=True, hist=req["hist"], events=res["events"], ops=res["ops"],
